@@ -32,8 +32,9 @@ for d in $DEMOS; do mkdir -p $OUT/demo/$(dirname $d); cp -r $d $OUT/demo/$(dirna
 WITHFAIL=$(grep -c "^<.* fail" /tmp/seed_diff.txt); 
 echo "demo/tests failing only WITH change: $WITHFAIL"
 grep "^>.* fail" /tmp/seed_diff.txt && echo "WARNING: something fails only WITHOUT the change"
+export DEMOS
 python3 - <<PY
-import json
-json.dump({"property":"$PROP","name":"$NAME","test_pkg":"$PKG","demo_files":"$DEMOS".split(),
+import json,os
+json.dump({"property":"$PROP","name":"$NAME","test_pkg":"$PKG","demo_files":os.environ.get("DEMOS","").split(),
  "confirmed":{"fails_only_with_change":open('/tmp/seed_diff.txt').read().splitlines()}},open("$OUT/meta.json","w"),indent=1)
 PY
